@@ -240,7 +240,7 @@ Proof.
   assert (L3 : length (wheap w3) = length (wheap w1)) by (unfold w3; rewrite hput_len by assumption; assumption).
   unfold unref. rewrite HN3. cbn [bref nb0 Nat.eqb Nat.sub negb btr].
   fold sz. replace (sz =? 0) with false by (symmetry; apply Nat.eqb_neq; lia).
-  cbn [bused]. rewrite Nat.mod_0_l by lia. cbn [Nat.sub].
+  change (bused nb0) with 0. rewrite Nat.mod_0_l by lia. cbn [Nat.sub].
   rewrite fini_loop_done by lia. cbn [bind].
   set (w4 := hput w3 nid None (wctx w3)).
   assert (HB4 : hget w4 id = Some (with_ref b r)).
